@@ -220,7 +220,8 @@ def _show(snap, e, depth=0):
             items = e[-1]
             if depth > 0:
                 return '[%d items @%x]' % (len(items), e[1])
-            return '[%s%s]@%x' % (', '.join(_show(snap, x, depth + 1) for x in items[:6]), ', ...' if len(items) > 6 else '', e[1])
+            return '[%s%s]@%x' % (', '.join(_show(snap, x, depth + 1) for x in items[-3:]) if len(items) <= 3 else
+                                  '..., ' + ', '.join(_show(snap, x, depth + 1) for x in items[-3:]), '', e[1])
         if tag == 'dict' and len(e) >= 3:
             return '{%d entries}@%x' % (len(e[-1]), e[1])
         if tag == 'tuple' and len(e) == 3:
